@@ -38,6 +38,7 @@ import tempfile
 
 import asyncssh
 from asyncssh import agent as _agentmod
+from asyncssh import _verif
 from asyncssh.agent import SSHAgentClient, SSHAgentKeyPair
 from asyncssh.packet import PacketDecodeError
 
@@ -1380,6 +1381,7 @@ def replay_client(steps, transport='unix', init_store=('ed',), units=2,
         res['outcomes'] = {s: (c.kind, c.outcome[0] if c.outcome else None)
                            for s, c in w.calls.items()}
         res['nconn'] = len(w.connects)
+        res['chan_open_errors'] = w.notes.count('ChannelOpenError')
     finally:
         w.stop()
     return res
@@ -2138,21 +2140,41 @@ def auth_cases(workdir):
     os.environ.pop('SSH_AUTH_SOCK', None)
     hostkey = asyncssh.generate_private_key('ssh-ed25519')
     cases = [
-        # (name, authorized key, server signature_algs, agent_identities,
-        #  expected (key, flags) of the sign requests, in order)
-        ('rsa key, default algorithms', 'rsa', None, None,
-         [('rsa', 2)]),
-        ('rsa key, server wants rsa-sha2-512', 'rsa', ['rsa-sha2-512'], None,
-         [('rsa', 4)]),
-        ('ed25519 key', 'ed', None, None, [('ed', 0)]),
-        ('agent_identities names the rsa key', 'rsa', None, 'rsa',
-         [('rsa', 2)]),
+        # (name, keys in the agent, authorized key, server signature_algs,
+        #  agent_identities, expected (key, flags) of the sign requests,
+        #  keys offered to the server in order)
+        ('rsa key, default algorithms', ('ed', 'rsa'), 'rsa', None, None,
+         [('rsa', 2)], ['ed', 'rsa']),
+        ('rsa key, server wants rsa-sha2-512', ('ed', 'rsa'), 'rsa',
+         ['rsa-sha2-512'], None, [('rsa', 4)], ['ed', 'rsa']),
+        ('ed25519 key', ('ed', 'rsa'), 'ed', None, None, [('ed', 0)],
+         ['ed']),
+        ('agent_identities names the rsa key', ('ed', 'rsa'), 'rsa', None,
+         'rsa', [('rsa', 2)], ['rsa']),
+        ('no acceptable key: login refused', ('rsa',), 'ed', None, None,
+         [], ['rsa']),
     ]
     try:
-        for name, auth, sigalgs, ident, want in cases:
+        for name, held, auth, sigalgs, ident, want, offered in cases:
             loop = new_loop()
             path = f'/x04/auth-agent-{os.getpid()}'
-            agent = FakeAgent(loop, path, ('ed', 'rsa'))
+            agent = FakeAgent(loop, path, held)
+            tried = []
+
+            def sink(ev, f, tried=tried):
+                if ev != 'pkt_out' or f.get('pkttype') != 50:
+                    return
+                try:
+                    r = Rd(f['payload'])
+                    r.byte(), r.string(), r.string()
+                    if r.string() == b'publickey':
+                        r.byte(), r.string()
+                        nm = agent.key_of_blob(r.string())
+                        if not tried or tried[-1] != nm:
+                            tried.append(nm)
+                except ValueError:
+                    pass
+            _verif.set_sink(sink)
             agent.auto = agent.real_sign = True
             agent.start()
             akeys = os.path.join(tmp, 'authorized_keys')
@@ -2190,10 +2212,19 @@ def auth_cases(workdir):
                      if a['req'] and a['req'].get('kind') == 'sign']
             lists = sum(1 for a in agent.answers.values()
                         if a['req'] and a['req'].get('kind') == 'list')
-            if how != 'ok':
+            _verif.set_sink(None)
+            if not want:
+                if not how.startswith('PermissionDenied'):
+                    bad.append(('AuthThroughAgent', f'{name}: {how}'))
+            elif how != 'ok':
                 bad.append(('AuthThroughAgent', f'{name}: login failed: '
                             f'{how}; sign requests {signs}'))
-            elif signs[-len(want):] != want or lists != 1:
+            if bad and bad[-1][1].startswith(name):
+                pass
+            elif tried != offered:
+                bad.append(('AuthThroughAgent', f'{name}: keys offered to '
+                            f'the server {tried}, expected {offered}'))
+            elif want and (signs[-len(want):] != want or lists != 1):
                 bad.append(('AuthThroughAgent', f'{name}: sign requests '
                             f'{signs} (identity lists: {lists}), expected '
                             f'the last to be {want}'))
@@ -2206,6 +2237,7 @@ def auth_cases(workdir):
             agent.stop()
             close_loop(loop)
     finally:
+        _verif.set_sink(None)
         shutil.rmtree(tmp, ignore_errors=True)
         if old_env is not None:
             os.environ['SSH_AUTH_SOCK'] = old_env
